@@ -1107,6 +1107,7 @@ func (g *gen) histMixed(o mixOpts) {
 			// time on the next bucket (equal keys, values and flags side by side
 			// in the pending writes - only the bucket tells the entries apart)
 			twin := nops > 1 && !focused && g.r.Intn(5) == 0
+			xstruct := o.buckets != nil && len(o.kinds) > 1 && g.r.Intn(100) < 25
 			// the operations of the transaction, reproducible from opSeed (the
 			// fault sweep below runs the same transaction several times)
 			opSeed := g.r.Int63()
@@ -1132,6 +1133,41 @@ func (g *gen) histMixed(o mixOpts) {
 						if okB && okK && g.r.Intn(4) > 0 {
 							t.Put(b, []byte(k), []byte("v-"+b+"/"+k), 0)
 						}
+					}
+				}
+				if xstruct {
+					// operations on different structures that share bucket name and
+					// key, directly behind each other (equal flags in the pending writes)
+					b := pick(g.r, o.buckets)
+					k := pick(g.r, []string{"a", "ab"})
+					v := g.val()
+					has := func(kind string) bool {
+						for _, x := range o.kinds {
+							if x == kind {
+								return true
+							}
+						}
+						return false
+					}
+					steps := []func(){
+						func() { t.Put(b, []byte(k), v, 0) },
+						func() { t.Delete(b, []byte(k)) },
+					}
+					if has("set") {
+						steps = append(steps, func() { t.SAdd(b, k, v) }, func() { t.SRem(b, k, v) }, func() {
+							if !g.noSPop {
+								t.SPop(b, k)
+							}
+						})
+					}
+					if has("list") && k == "a" { // "ab" is not a list key of this universe (observations would not show it)
+						steps = append(steps, func() { t.RPush(b, k, v) }, func() { t.LPop(b, k) })
+					}
+					if has("zset") {
+						steps = append(steps, func() { t.ZAdd(b, []byte(k), 1, v) }, func() { t.ZRem(b, k) })
+					}
+					for i, n := 0, 2+g.r.Intn(3); i < n; i++ {
+						steps[g.r.Intn(len(steps))]()
 					}
 				}
 				for j := 0; j < nops; j++ {
@@ -1395,6 +1431,8 @@ func main() {
 		case "isomerge": // C04 across Merge and reopen (no lists: a Merge with list records is a recorded finding)
 			g.noSMove = true
 			g.histMixed(mixOpts{kinds: []string{"kv", "set", "zset"}, pMulti: 50, pNoCommit: 10, pMerge: 12, buckets: isoBuckets, obsAlways: true})
+		case "isointx": // C13 over structures that share bucket names and keys
+			g.histMixed(mixOpts{kinds: []string{"kv", "list", "set", "zset"}, pMulti: 90, pInTxRead: 40, buckets: isoBuckets})
 		case "isokv":
 			g.histMixed(mixOpts{kinds: []string{"kv"}, pMulti: 50, pNoCommit: 10, buckets: isoBuckets, obsAlways: true})
 		case "mixedkv": // C08 in the other index modes
